@@ -38,6 +38,14 @@ Proof.
   induction n; intros [|x l]; cbn; auto.
 Qed.
 
+Lemma skipn_skipn : forall {A} a b (l : list A), skipn a (skipn b l) = skipn (a + b) l.
+Proof.
+  intros A a b. revert a. induction b as [|b IH]; intros a l.
+  - rewrite Nat.add_0_r. reflexivity.
+  - destruct l as [|x l]; [rewrite !skipn_nil; reflexivity|].
+    replace (a + S b)%nat with (S (a + b)) by lia. cbn [skipn]. apply IH.
+Qed.
+
 Lemma get_hd : forall data p, 0 <= p -> get data p = hd_error (skipn (Z.to_nat p) data).
 Proof.
   intros data p H. unfold get.
@@ -107,13 +115,13 @@ Lemma skipFloatExp_range : forall data q p' e,
   0 <= q -> skipFloatExp data q = (p', e) -> q - 1 <= p' /\ (p' <= len data - 1 \/ p' = q - 1).
 Proof.
   intros data q p' e Hq H. unfold skipFloatExp in H.
-  destruct (skipn (Z.to_nat q) data) as [|c r] eqn:S.
-  - inversion H; subst. lia.
-  - apply skipn_cons_len in S.
+  destruct (skipn (Z.to_nat q) data) as [|c r] eqn:Sk.
+  - cbv zeta in H; injection H as Hp He; subst p'; clear He. lia.
+  - apply skipn_cons_len in Sk.
     destruct (q <? 0) eqn:E; [apply Z.ltb_lt in E; lia|].
     destruct (is_sign c).
-    + inversion H; subst. pose proof (count_while_le is_digit r). unfold len. lia.
-    + inversion H; subst. pose proof (count_while_le is_digit (c :: r)). cbn [length] in H0. unfold len. lia.
+    + cbv zeta in H; injection H as Hp He; subst p'; clear He. pose proof (count_while_le is_digit r). unfold len. lia.
+    + cbv zeta in H; injection H as Hp He; subst p'; clear He. pose proof (count_while_le is_digit (c :: r)) as CW. cbn [length count_while] in CW. unfold len. destruct (is_digit c); lia.
 Qed.
 
 Lemma skipn_skipn_cons : forall {A} n (l : list A) m c r c2 r2,
@@ -128,18 +136,18 @@ Lemma skipFloatDec_range : forall data q p' e,
   0 <= q -> skipFloatDec data q = (p', e) -> q - 1 <= p' /\ (p' <= len data - 1 \/ p' = q - 1).
 Proof.
   intros data q p' e Hq H. unfold skipFloatDec in H.
-  destruct (skipn (Z.to_nat q) data) as [|c r] eqn:S.
-  - inversion H; subst. lia.
-  - pose proof (skipn_cons_len _ _ _ _ S) as L.
+  destruct (skipn (Z.to_nat q) data) as [|c r] eqn:Sk.
+  - cbv zeta in H; injection H as Hp He; subst p'; clear He. lia.
+  - pose proof (skipn_cons_len _ _ _ _ Sk) as L.
     destruct (q <? 0) eqn:E; [apply Z.ltb_lt in E; lia|].
-    destruct (negb (is_digit c)); [inversion H; subst; lia|].
+    destruct (negb (is_digit c)); [cbv zeta in H; injection H as Hp He; subst p'; clear He; lia|].
     pose proof (count_while_le is_digit r) as CW.
     destruct (skipn (count_while is_digit r) r) as [|c2 r2] eqn:S2.
-    + inversion H; subst. unfold len. lia.
+    + cbv zeta in H; injection H as Hp He; subst p'; clear He. unfold len. lia.
     + pose proof (skipn_cons_len _ _ _ _ S2) as L2.
       destruct (is_exp c2).
       * apply skipFloatExp_range in H; [|lia]. unfold len in *. lia.
-      * inversion H; subst. unfold len. lia.
+      * cbv zeta in H; injection H as Hp He; subst p'; clear He. unfold len. lia.
 Qed.
 
 (** the form used by the machine: [p, err = skipFloatX(data, p+1, pe)] *)
